@@ -46,7 +46,6 @@ CLAIMED["C19"] = ("Backoff.tla model-checked by TLC with monitor MonC19 composed
 
 NOT_YET = {
  "C13": "check under construction (BytePump.tla and real-client runs); not claimed yet",
- "C19": "check under construction (Backoff.tla); not claimed yet",
  "C20": "check under construction (AwsBuilder.tla); not claimed yet",
 }
 
@@ -76,7 +75,7 @@ manifest = {
         "add_only": True,
     },
     "engines": [
-        {"name": "tla-monitors", "path": "/verif/spec/mon", "serves_properties": sorted(CLAIMED), "kind_free_text": "TLA+ property monitors (pure Apply operators) evaluated by TLC over ndjson traces of the real code, and composed with the implementation-shaped specifications in model checking"},
+        {"name": "tla-monitors", "path": "/verif/spec/mon", "serves_properties": sorted(CLAIMED), "kind_free_text": "TLA+ specifications (Engine, ClientLifecycle, Backoff, Codec, DecoderFraming) and property monitors (pure Apply operators) evaluated by TLC over ndjson traces of the real code, and composed with the implementation-shaped specifications in model checking"},
         {"name": "harness", "path": "/verif/harness", "serves_properties": sorted(CLAIMED), "kind_free_text": "Rust scenario runner: reference MQTT codec, reference broker, scripted/faithful drivers, regression scripts"},
     ],
     "checks": checks,
